@@ -130,6 +130,10 @@ fn host_set_return_data(data: &[u8]) {
     RETURN_DATA.with(|r| *r.borrow_mut() = Some((pid, data.to_vec())));
 }
 
+fn host_get_return_data() -> Option<(Pubkey, Vec<u8>)> {
+    RETURN_DATA.with(|r| r.borrow().clone())
+}
+
 fn host_invoke(instruction: &Instruction, account_infos: &[AccountInfo], signers_seeds: &[&[&[u8]]]) -> ProgramResult {
     cpi(instruction, account_infos, signers_seeds)
 }
@@ -213,6 +217,7 @@ pub fn install() {
         solana_program::program_stubs::set_syscall_stubs(Box::new(Stubs));
         solana_invoke::set_host_invoke(host_invoke);
         solana_cpi::set_host_set_return_data(host_set_return_data);
+        solana_cpi::set_host_get_return_data(host_get_return_data);
         solana_msg::set_host_log(pino_log);
         pinocchio::host::set_hooks(pino_sysvar_get, pino_invoke, pino_log);
     });
